@@ -163,10 +163,11 @@ def dec(dims, p, order="C"):
             for b in reversed(range(B - 1)):
                 e = tm.ite(tm.lt(p, tm.mul(tm.const(b + 1), nlast)), tm.const(int(lead[b][k])), e)
             out.append(e)
-        blk = tm.const(B - 1)
+        # offset of the block as an ite chain of LINEAR terms b*nlast (not (ite ..)*nlast, which would be a nonlinear product for the solvers)
+        off = tm.mul(tm.const(B - 1), nlast)
         for b in reversed(range(B - 1)):
-            blk = tm.ite(tm.lt(p, tm.mul(tm.const(b + 1), nlast)), tm.const(b), blk)
-        out.append(tm.sub(p, tm.mul(blk, nlast)))
+            off = tm.ite(tm.lt(p, tm.mul(tm.const(b + 1), nlast)), tm.mul(tm.const(b), nlast), off)
+        out.append(tm.sub(p, off))
         return out
     c = ic()
     c.axiom("mixed-radix decode (lemma lemmas/mixed-radix)")
@@ -1301,3 +1302,4 @@ def mode_i(modules, extra_globals=None):
 
 
 _MISSING = object()
+
